@@ -17,6 +17,7 @@ CONSTANTS
   AsyncKinds = {}
   MaxNet = 0
   W = {"Env:S5Free"}
+  MayTimeout = {a, b, c, d}
   Gen = TRUE
   OutDir = "OUTDIR"
 SPECIFICATION GSpec
